@@ -17,21 +17,28 @@ CONSTANTS Lens,        \* payload lengths
           Formats,     \* subset of {"ci", "ci+dl", "impl", "impl+dl"}
           SpaLens,     \* service packet address lengths 0..6
           StartCi,     \* initial values of the sender's continuity counter
+          Bursts,      \* lengths of loss bursts (runs of consecutive lost packets of the selected address), each < 256
           MaxPk
 
 VARIABLES sci,      \* sender: continuity indicator of the next packet
           rci,      \* reference receiver: expected continuity indicator, -1 unknown
           lost,     \* reference receiver: loss seen since the last delivery
           out,      \* deliveries of the last step: sequence of [n, lost, dep]
-          gap,      \* ghost: a packet of the selected address was sent and not delivered since the last delivery
+          gap,      \* ghost: what was lost since the last delivery: [n |-> packets of the selected address that never arrived
+                    \*        (modulo 256: the continuity indicator has 8 bits, a run of exactly 256 is undetectable),
+                    \*        crc |-> a packet arrived with a CRC failure]
           seen,     \* ghost: the receiver has synchronised once (delivered or saw a CRC failure)
           npk, lastAct
 vars == <<sci, rci, lost, out, gap, seen, npk, lastAct>>
 
-Init == /\ sci \in StartCi /\ rci = -1 /\ lost = FALSE /\ out = <<>> /\ gap = FALSE /\ seen = FALSE
+Inc(c) == (c + 1) % 256
+NoGap == [n |-> 0, crc |-> FALSE]
+Miss(k) == [gap EXCEPT !.n = (@ + k) % 256]
+IsGap == gap.n # 0 \/ gap.crc
+
+Init == /\ sci \in StartCi /\ rci = -1 /\ lost = FALSE /\ out = <<>> /\ gap = NoGap /\ seen = FALSE
         /\ npk = 0 /\ lastAct = [a |-> "init"]
 
-Inc(c) == (c + 1) % 256
 
 \* room for user data: bytes 4..39 minus address nibbles, explicit CI and DL bytes; without a DL byte
 \* the whole room is user data
@@ -46,10 +53,17 @@ Send(how, n, fmt, spalen, dep) ==
   /\ CASE how = "ok" ->
             LET l == lost \/ (rci # -1 /\ rci # sci) IN
             /\ out' = <<[n |-> Payload(n, fmt, spalen), lost |-> l, dep |-> dep]>>
-            /\ rci' = Inc(sci) /\ lost' = FALSE /\ gap' = FALSE /\ seen' = TRUE
-       [] how = "drop" -> /\ out' = <<>> /\ gap' = TRUE /\ UNCHANGED <<rci, lost, seen>>
-       [] how = "crc"  -> /\ out' = <<>> /\ gap' = TRUE /\ rci' = -1 /\ lost' = TRUE /\ seen' = TRUE
-       [] how = "ham"  -> /\ out' = <<>> /\ gap' = TRUE /\ UNCHANGED <<rci, lost, seen>>
+            /\ rci' = Inc(sci) /\ lost' = FALSE /\ gap' = NoGap /\ seen' = TRUE
+       [] how = "drop" -> /\ out' = <<>> /\ gap' = Miss(1) /\ UNCHANGED <<rci, lost, seen>>
+       [] how = "crc"  -> /\ out' = <<>> /\ gap' = [gap EXCEPT !.crc = TRUE] /\ rci' = -1 /\ lost' = TRUE /\ seen' = TRUE
+       [] how = "ham"  -> /\ out' = <<>> /\ gap' = Miss(1) /\ UNCHANGED <<rci, lost, seen>>
+
+\* a fade: k consecutive packets of the selected address never arrive.  The continuity indicator counts modulo 256,
+\* so any run shorter than 256 is detectable and must be flagged (k = 16, 32 ... leave the low nibble unchanged).
+Burst(k) ==
+  /\ npk' = npk + 1 /\ lastAct' = [a |-> "Burst", k |-> k, ci |-> sci]
+  /\ sci' = (sci + k) % 256
+  /\ out' = <<>> /\ gap' = Miss(k) /\ UNCHANGED <<rci, lost, seen>>
 
 \* traffic that is not for us: other address, other channel, ordinary Teletext packet
 Other(kind) ==
@@ -58,11 +72,13 @@ Other(kind) ==
 
 Next == \/ \E how \in {"ok", "drop", "crc", "ham"}, n \in Lens, f \in Formats, s \in SpaLens, d \in BOOLEAN : Send(how, n, f, s, d)
         \/ \E k \in {"addr", "chan", "ttx"} : Other(k)
+        \/ \E k \in Bursts : Burst(k)
 Spec == Init /\ [][Next]_vars
 Bounded == npk < MaxPk
 
 \* loss is flagged exactly on the first delivery after it (once the receiver has synchronised)
-FlagOnlyAfterLoss == [][\A i \in 1..Len(out') : out'[i].lost => gap]_vars
-FlagAfterLoss     == [][\A i \in 1..Len(out') : (gap /\ seen) => out'[i].lost]_vars
+FlagOnlyAfterLoss == [][\A i \in 1..Len(out') : out'[i].lost => IsGap]_vars
+FlagAfterLoss     == [][\A i \in 1..Len(out') : (IsGap /\ seen) => out'[i].lost]_vars
+ASSUME \A k \in Bursts : k \in 1..255
 TypeOK == sci \in 0..255 /\ rci \in -1..255
 =============================================================================
